@@ -5,6 +5,8 @@ cd /verif
 git -C /repo status --short | grep -q . && { echo "/repo is not clean"; exit 2; }
 for d in seeded/*/; do
   n=$(basename $d)
+  # SWEEP_FILTER: an extended regular expression on the seed's name (default: all)
+  if [ -n "$SWEEP_FILTER" ] && ! echo "$n" | grep -Eq "$SWEEP_FILTER"; then continue; fi
   id=$(python3 -c "import json;m=json.load(open('$d/meta.json'));print(m.get('sweep_check', m['breaks_property']))")
   git -C /repo apply /verif/$d/patch.diff 2>/dev/null || { echo "$n: PATCH DOES NOT APPLY"; continue; }
   out=$(timeout 1500 ./check $id quick 2>&1 | grep -v '^KNOWN' | grep 'VIOLATION\|^OK\|BROKEN' | head -1 | cut -c1-120)
